@@ -702,6 +702,11 @@ type BuildOpt struct {
 	Child   bool     // run in a fresh process
 	Env     []string // extra environment for the child (crash injection)
 	NoCheck bool     // do not judge C01 at the end (e.g. the build was killed)
+	// WarmOverlay: the tree currently holds the state before the last edits and WarmOverlay the tree after them; the
+	// (child) build first builds everything on a fresh Project, applies the overlay, Reload()s and only then runs the
+	// requested build - a long-lived project, as under `dawn watch`. The warm-up's executions are not fed to the model
+	// (they re-establish what the model already knows: everything was current before the edits).
+	WarmOverlay string
 }
 
 // Build runs one build of target and feeds the execution log to the model. It returns the
@@ -716,6 +721,9 @@ func (e *Engine) Build(target string, o BuildOpt) (*Step, BuildRes, bool) {
 		e.preStale[l] = e.Stale(l)
 	}
 	req := BuildReq{Root: e.S.Root, Target: target, Always: o.Always, Dry: o.Dry, Args: e.P.Args}
+	if o.WarmOverlay != "" {
+		req.WarmOverlay, req.WarmLog = o.WarmOverlay, e.S.LogPath()
+	}
 	var res BuildRes
 	alive := true
 	switch {
@@ -767,7 +775,14 @@ func (e *Engine) Build(target string, o BuildOpt) (*Step, BuildRes, bool) {
 
 // consumeLog feeds execution-log entries written since `from` to the model.
 func (e *Engine) consumeLog(st *Step, from int, always bool) {
-	for _, le := range e.S.ReadLog(from) {
+	entries := e.S.ReadLog(from)
+	for i := len(entries) - 1; i >= 0; i-- {
+		if entries[i].Kind == "W" { // everything before the marker belongs to a warm-up build
+			entries = entries[i+1:]
+			break
+		}
+	}
+	for _, le := range entries {
 		if le.Kind == "M" {
 			continue
 		}
